@@ -453,8 +453,26 @@ func ruleIDGRPC(c *Ctx) {
 		// and the listener returned is that listener
 		okRet := false
 		ast.Inspect(f.Body, func(x ast.Node) bool {
-			if rs, isR := x.(*ast.ReturnStmt); isR && len(rs.Results) == 2 && lv != nil && identObj(info, rs.Results[0]) == lv {
-				okRet = true
+			if rs, isR := x.(*ast.ReturnStmt); isR && len(rs.Results) == 2 && lv != nil {
+				if identObj(info, rs.Results[0]) == lv {
+					okRet = true
+				}
+				// or a wrapper that embeds that listener: &T{Listener: lv, ...}
+				r := ast.Unparen(p.Deref(f, rs.Results[0]))
+				if u, isU := r.(*ast.UnaryExpr); isU && u.Op == token.AND {
+					r = u.X
+				}
+				if cl, isCl := r.(*ast.CompositeLit); isCl {
+					for _, el := range cl.Elts {
+						if kv, isKv := el.(*ast.KeyValueExpr); isKv && identObj(info, kv.Value) == lv {
+							if k, isId := kv.Key.(*ast.Ident); isId {
+								if fv, isF := info.Uses[k].(*types.Var); isF && fv.Embedded() {
+									okRet = true
+								}
+							}
+						}
+					}
+				}
 			}
 			return true
 		})
